@@ -52,6 +52,8 @@ void tdigest<T, A>::merge(const tdigest& other) {
   for (const T value: other.buffer_) tmp.push_back(centroid(value, 1));
   std::copy(other.centroids_.begin(), other.centroids_.end(), std::back_inserter(tmp));
   merge(tmp, buffer_.size() + other.get_total_weight());
+  min_ = std::min(min_, other.min_);
+  max_ = std::max(max_, other.max_);
 }
 
 template<typename T, typename A>
